@@ -345,9 +345,43 @@ def case(ctx):
                 ctx.count("explicit_ignored_path")
             ctx.hist("explicit:%s" % ("root" if e == "" else "versioned" if e in V0 else disk.get(e, "?") + (":ignored" if cache.get(e) else "")))
         wt = WorkingTree.open(t)
+        warmed = rng.random() < 0.6
+        if warmed:
+            # the tree object has answered queries before (its caches are populated) - as in any long-lived session
+            with wt.lock_read():
+                for q in sorted(disk)[:40]:
+                    try:
+                        wt.is_versioned(q)
+                    except Exception:
+                        pass
         added, ignored_map = wt.smart_add([os.path.join(t, e) if e else t for e in explicit], recurse=recurse)
+        # what the object that did the add says afterwards must be what a fresh open says
+        probe = set()
+        same = {}
+        with wt.lock_read():
+            for q, _ie in wt.iter_entries_by_dir():
+                if q:
+                    probe.add(q)
+                    probe.update(_ancestors(q))
+            probe.update(q for q in disk if not any(q == n or q.startswith(n + "/") for n in nested))
+            for q in sorted(probe):
+                try:
+                    same[q] = bool(wt.is_versioned(q))
+                except Exception as e:
+                    same[q] = "raised:" + type(e).__name__
         del wt
         wt2 = WorkingTree.open(t)
+        with wt2.lock_read():
+            ctx.count("same_object_view_compared" + (":warmed" if warmed else ""))
+            for q in sorted(probe):
+                try:
+                    fresh = bool(wt2.is_versioned(q))
+                except Exception as e:
+                    fresh = "raised:" + type(e).__name__
+                if same[q] != fresh:
+                    ctx.fail("same-object:is_versioned-differs-from-fresh-open", "after smart_add the adding tree object says is_versioned(%r)=%r, a fresh open says %r [%s tree, explicit=%r, warmed=%s]" % (
+                        q, same[q], fresh, fmt, explicit, warmed), dict(prog, path=q))
+                    break
         with wt2.lock_read():
             V1 = {}
             for p, ie in wt2.iter_entries_by_dir():
